@@ -23,6 +23,20 @@ import threading as _threading
 _scratch_lock = _threading.Lock()
 
 
+try:
+    import ctypes as _ctypes
+    _libc = _ctypes.CDLL("libc.so.6", use_errno=True)
+except Exception:
+    _libc = None
+
+
+def _die_with_parent():
+    """preexec_fn: the child gets SIGKILL when the check process dies (even by SIGKILL / OOM), so no
+    TLC JVM or harness process outlives its check.  Only a pre-loaded libc call happens after fork."""
+    if _libc is not None:
+        _libc.prctl(1, 9)   # PR_SET_PDEATHSIG, SIGKILL
+
+
 class Infra(Exception):
     """Infrastructure failure: exit 2, never a VIOLATION."""
 
@@ -121,7 +135,8 @@ class Ctx:
         if env:
             e.update(env)
         try:
-            p = subprocess.run([binp] + args, input=stdin, capture_output=True, text=True, timeout=timeout, env=e, cwd=self.out)
+            p = subprocess.run([binp] + args, input=stdin, capture_output=True, text=True, timeout=timeout, env=e, cwd=self.out,
+                               preexec_fn=_die_with_parent)
         except subprocess.TimeoutExpired:
             raise Infra("harness %s %s timed out after %ds" % (binp, args, timeout))
         if p.returncode not in ok_codes:
@@ -183,7 +198,7 @@ class Ctx:
         args.append(module + ".tla")
         t = time.time()
         try:
-            p = subprocess.run(args, cwd=d, capture_output=True, text=True, timeout=timeout)
+            p = subprocess.run(args, cwd=d, capture_output=True, text=True, timeout=timeout, preexec_fn=_die_with_parent)
             rc, out = p.returncode, p.stdout + p.stderr
         except subprocess.TimeoutExpired as ex:
             if simulate:   # simulation under an outer timeout is the documented way to bound it
